@@ -261,11 +261,16 @@ func bigCases(c *rig.Ctx) []refCase {
 	return []refCase{
 		{fmt.Sprintf("prolly/rows=%d+index", rows), func(s *syn) {
 			r := s.r
-			r.must("create table big (pk int primary key, c1 int, c2 varchar(60), key i1 (c1), key i2 (c2))")
+			rnd := rand.New(rand.NewSource(11))
+			r.must("create table big (pk int primary key, c1 int, c2 varchar(60), tx text, key i1 (c1), key i2 (c2))")
 			for lo := 0; lo < rows; lo += 500 {
 				var vs []string
 				for i := lo; i < lo+500 && i < rows; i++ {
-					vs = append(vs, fmt.Sprintf("(%d,%d,'value-%d-%d')", i, i*7%1000, i, i*31))
+					tx := "null"
+					if i%40 == 0 { // out-of-band values in leaf nodes that are not the table's embedded root node
+						tx = "'" + bigText(rnd, 3000+rnd.Intn(2000)) + "'"
+					}
+					vs = append(vs, fmt.Sprintf("(%d,%d,'value-%d-%d',%s)", i, i*7%1000, i, i*31, tx))
 				}
 				r.must("insert into big values " + strings.Join(vs, ","))
 			}
